@@ -17,7 +17,7 @@ def replay(prop, path):
     except (OSError, ValueError) as e:
         print('UNDECIDED replay: cannot read %s: %s' % (path, e))
         return 2
-    if r.get('engine') in ('sqlite_equiv', 'server_conform', 'replica_exec'):
+    if r.get('engine') in ('sqlite_equiv', 'server_conform', 'replica_exec', 'http_conform'):
         from . import dyn
         return dyn.replay(r['engine'], path)
     if r.get('engine') == 'kani':
